@@ -27,7 +27,8 @@ import common
 RULE = ("random .top texts (2-5 atom types, optional bond types/OPLS, comb-rule 1/2/3, gen-pairs yes/no/absent, "
         "random nonbond_params subsets in either order, bond/angle/constraint/dihedral type tables with exact, "
         "reversed and every-wildcard-mask keys, 1-3 terms per key, decoys, 1-3 moleculetypes with 4-7 atoms, "
-        "dihedrals listed in both directions, macros in parameters, [molecules] counts 0-4 with repeats) read "
+        "dihedrals listed in both directions, macros among the parameters and macros standing for the whole parameter "
+        "list, C6/C12 from 1e-12 to 1e7, [molecules] counts 0-4 with repeats) read "
         "by the real reader and preprocessed by the real code; plus direct calls of the real wildcard search "
         "on random tables over all 16 masks and both directions; a small malformed stream (flag macro as "
         "parameter, no [defaults], unknown comb-rule, missing type). distinct = hash of the rendered text / "
@@ -47,6 +48,18 @@ def dy(rng, lo=1, hi=255, bits=6):
     return repr(float(val))
 
 
+def lj(rng):
+    """a positive C6/C12-like value over the whole range force fields use: mostly moderate dyadics, sometimes tiny
+    (1e-12 .. 1e-6, light hydrogens) or huge (1e3 .. 1e7); written the way topologies write them"""
+    roll = rng.random()
+    if roll < 0.6:
+        return dy(rng)
+    mant = rng.choice(["1", "1.5", "2.25", "3.5", "4.75", "7.125", "9.0625"])
+    if roll < 0.85:
+        return "%se-%02d" % (mant, rng.randint(6, 12))
+    return "%se+%02d" % (mant, rng.randint(3, 7))
+
+
 # ------------------------------------------------------------------------------------------------ generator
 
 def gen_topology(rng, malformed=None, big=False):
@@ -57,7 +70,7 @@ def gen_topology(rng, malformed=None, big=False):
         names[rng.randrange(ntypes)] = "X"      # an atom type that is called like the wildcard
     opls = rng.random() < 0.15
     btypes = {n: rng.choice(["B1", "B2", "B3"]) for n in names} if opls else {}
-    atomtypes = [dict(name=n, btype=btypes.get(n), nb1=dy(rng), nb2=dy(rng), full=opls or rng.random() < 0.3)
+    atomtypes = [dict(name=n, btype=btypes.get(n), nb1=lj(rng), nb2=lj(rng), full=opls or rng.random() < 0.3)
                  for n in names]
     comb = rng.choice([1, 1, 2, 3])
     gen_pairs = rng.choice(["yes", "yes", "no", None])
@@ -66,8 +79,14 @@ def gen_topology(rng, malformed=None, big=False):
     for a, b in rng.sample(pairs, rng.randint(0, min(len(pairs), 4))):
         if rng.random() < 0.5:
             a, b = b, a
-        nonbond.append([a, b, "1", dy(rng), dy(rng)])
+        nonbond.append([a, b, "1", lj(rng), lj(rng)])
     macros = [["gb_%d" % i, [dy(rng) for _ in range(rng.randint(1, 3))]] for i in range(rng.randint(0, 3))]
+    # macros that stand for the WHOLE parameter list, function type included (`#define b_CC 1 0.147 8.71e6`, `1 2 b_CC`)
+    whole = {}
+    for sec in SECTIONS:
+        if rng.random() < 0.35:
+            whole[sec] = "w_%s_%d" % (sec[:3], rng.randint(1, 9))
+            macros.append([whole[sec], [FUNC[sec]] + [dy(rng) for _ in range(rng.randint(1, 3))]])
     flags = ["FLEX"] if rng.random() < 0.3 else []
     if opls:
         flags.append(rng.choice(["_FF_OPLS", "_FF_OPLS_AA"]))
@@ -92,6 +111,8 @@ def gen_topology(rng, malformed=None, big=False):
                     seen.add(atm)
                     if sec == "exclusions":
                         params = []
+                    elif sec in whole and rng.random() < 0.3:
+                        params = [whole[sec]]
                     elif sec == "pairs" or rng.random() < 0.6:
                         params = [FUNC[sec]]
                     else:
@@ -108,7 +129,7 @@ def gen_topology(rng, malformed=None, big=False):
             if sec not in types:
                 continue
             for atoms, params in ixns:
-                if len(params) != 1:
+                if len(params) != 1 or (params[0] in whole.values() and rng.random() < 0.5):
                     continue
                 key = [btypes[blk["atypes"][a]] if opls else blk["atypes"][a] for a in atoms]
                 if sec == "dihedrals":
@@ -311,6 +332,19 @@ def topo_case(topo):
     opls = any(d[0] in ("_FF_OPLS", "_FF_OPLS_AA") for d in request["defines"])
     btype = {a[0]: a[3] for a in request["atomtypes"]}
     tables = dict((sec, tab) for sec, tab in request["types"])
+    defs = dict((k, v) for k, v in request["defines"])
+
+    def eff_len(params):
+        """number of parameter tokens after macro substitution (None: a value-less macro is used)"""
+        total = 0
+        for tok in params:
+            if tok in defs:
+                if defs[tok] is None:
+                    return None
+                total += len(defs[tok])
+            else:
+                total += 1
+        return total
     paramless = []
     for blk in request["blocks"]:
         for sec, ixns in blk["ixns"]:
@@ -318,7 +352,8 @@ def topo_case(topo):
                 continue
             atoms_seen = [tuple(i[0]) for i in ixns]
             for atoms, params, _ in ixns:
-                if len(params) != 1 or atoms_seen.count(tuple(atoms)) != 1:
+                # "written without parameters" = exactly one token (the function type) once the macros are substituted
+                if eff_len(params) != 1 or atoms_seen.count(tuple(atoms)) != 1:
                     continue
                 key = [btype.get(blk["atypes"][a]) if opls else blk["atypes"][a] for a in atoms]
                 if any(k is None for k in key):
@@ -341,7 +376,7 @@ def topo_case(topo):
             inst = [(j, secs) for j, (nm, secs) in enumerate(obs["instances"]) if nm == blk["name"]]
             for sec, ixns in blk["ixns"]:
                 for pos, (atoms, params, _) in enumerate(ixns):
-                    if len(params) < 2:
+                    if (eff_len(params) or 0) < 2:
                         continue
                     got = []
                     for j, secs in inst:
@@ -555,7 +590,6 @@ def run(ctx):
         "specification (bestKeys/specVerdict/pairsVerdict/sigEpsResidual) evaluated on what the real code wrote.")
     ctx.assumptions += ["atoms of a moleculetype are numbered 1..n consecutively (GROMACS requires it); with gaps the "
                         "expanded terms would carry block keys instead of molecule indices",
-                        "no interaction is written with a macro as its only parameter",
                         "[pairs] lines are not resolved through pairtypes (the code treats them as untyped)"]
     rng = ctx.rng
     inputs = corpus_cases()
